@@ -134,9 +134,12 @@ pub fn decode_build_case(t: &mut Tape, x: &mut Tape, max_n: usize, cap: Option<u
     let n = if large {
         // one large case in twelve is beyond 256 functions (counts that do not fit a byte)
         if t.chance(1, 12) {
-            257 + t.below(44)
+            [255usize, 256, 257][t.below(3)] + if t.chance(1, 2) { 0 } else { t.below(44) }
+        } else if t.chance(1, 5) {
+            // exactly at a power-of-two boundary
+            [63usize, 64, 65, 127, 128, 129][t.below(6)]
         } else {
-            65 + t.below(56)
+            41 + t.below(80)
         }
     } else if t.chance(1, 12) {
         9 + t.below(max_n.saturating_sub(8).max(1))
@@ -1671,6 +1674,18 @@ pub fn big_build_specs(thorough: bool, seed: u64) -> Vec<(String, GraphSpec)> {
             edges.swap(i, j);
         }
         out.push((format!("bipartite conflict graph: {a} writers x {b} readers, {} directly joined conflicting pairs", a * b), GraphSpec { fns, edges, batches: vec![] }));
+    }
+    // deep: a chain of more than 1024 functions without data access, inserted tail first
+    // (every function has a smaller id than all its ancestors)
+    {
+        let n = 1100 + (seed % 13) as usize;
+        let fns: Vec<TestFn> = (0..n).map(|id| TestFn { id, reads: vec![], writes: vec![] }).collect();
+        // function id i sits at depth n-1-i: edges (i+1) -> i
+        let mut edges: Vec<(usize, usize, Kind)> = (0..n - 1).map(|i| (i + 1, i, if i % 2 == 0 { Kind::Logic } else { Kind::Contains })).collect();
+        if seed % 2 == 1 {
+            edges.reverse();
+        }
+        out.push((format!("chain of {n} functions inserted tail first (depth beyond 1024)"), GraphSpec { fns, edges, batches: vec![] }));
     }
     let mut win: Vec<(usize, usize)> = vec![(364 + (seed % 9) as usize, 24)];
     if thorough {
